@@ -299,6 +299,9 @@ class IterativeNodeFinder(IterativeFinder):
             return self.put_result(self.active.keys(), finish=True)
 
 
+MAX_VALUE_PAGES = 4 * constants.K  # most pages of blob peers requested from one node in one lookup
+
+
 class IterativeValueFinder(IterativeFinder):
     def __init__(self, loop: asyncio.AbstractEventLoop,
                  protocol: 'KademliaProtocol', key: bytes,
@@ -335,7 +338,8 @@ class IterativeValueFinder(IterativeFinder):
                   already_known + len(parsed.found_compact_addresses))
         if len(self.discovered_peers[peer]) != already_known + len(parsed.found_compact_addresses):
             log.warning("misbehaving peer %s:%i returned duplicate peers for blob", peer.address, peer.udp_port)
-        elif len(parsed.found_compact_addresses) >= constants.K and self.peer_pages[peer] < parsed.pages:
+        elif len(parsed.found_compact_addresses) >= constants.K and \
+                self.peer_pages[peer] < min(parsed.pages, MAX_VALUE_PAGES):
             # the peer returned a full page and indicates it has more
             self.peer_pages[peer] += 1
             if peer in self.contacted:
